@@ -929,6 +929,13 @@ def r13_initial_value_verbatim(ctx, rep):
     c18.r2_no_transform_after_restore(ctx, rep)
 
 
+def r14_continuation_joins(ctx, rep):
+    """a declaration split with `&` ... `&` is the same declaration: the reader removes the two & characters and nothing else
+    (shared with C02.R5)"""
+    from . import c02
+    c02.r5_continuation(ctx, rep)
+
+
 RULES = [
     RuleSpec("C01.R5", r5_character_slots, "character selector slots are filled at most once", floor=2),
     RuleSpec("C01.R1", r1_case_neutral, "case-neutral recognition", floor=24),
@@ -942,4 +949,5 @@ RULES = [
     RuleSpec("C01.R11", r11_two_word_types, "two-word type keywords are normalised in every spelling", floor=2),
     RuleSpec("C01.R12", r12_template_name_comparisons, "templates compare names case-insensitively", floor=1),
     RuleSpec("C01.R13", r13_initial_value_verbatim, "initial values are not rewritten after their literals were put back (shared with C18.R2)", floor=2),
+    RuleSpec("C01.R14", r14_continuation_joins, "continuation joining removes exactly the & characters (shared with C02.R5)", floor=3),
 ]
